@@ -1216,6 +1216,30 @@ private:
         };
 
         const auto& fields = request.fields;
+
+        std::optional<std::string> control_token;
+        {
+            std::scoped_lock lock(node_mutex_);
+            control_token = node_.config().control_token;
+        }
+        const auto token_it = fields.find("TOKEN");
+        if (control_token.has_value()) {
+            if (token_it == fields.end()) {
+                auto error = make_error("ERR_FETCH_UNAUTHENTICATED",
+                                        "Control token required",
+                                        "Provide --control-token when invoking the CLI");
+                respond_error(std::move(error), "auth_missing", true, false);
+                return;
+            }
+            if (!constant_time_equal(*control_token, token_it->second)) {
+                auto error = make_error("ERR_FETCH_UNAUTHENTICATED",
+                                        "Invalid control token",
+                                        "Verify the shared secret configured on the daemon");
+                respond_error(std::move(error), "auth_invalid", true, false);
+                return;
+            }
+        }
+
         const auto manifest_it = fields.find("MANIFEST");
         if (manifest_it == fields.end()) {
             auto error = make_error("ERR_FETCH_MANIFEST_REQUIRED",
@@ -1279,29 +1303,8 @@ private:
         }
 
         if (stream_to_client) {
-            std::optional<std::string> control_token;
-            {
-                std::scoped_lock lock(node_mutex_);
-                control_token = node_.config().control_token;
-            }
-
-            const auto token_it = fields.find("TOKEN");
             std::string rate_identity = remote_identity;
             if (control_token.has_value()) {
-                if (token_it == fields.end()) {
-                    auto error = make_error("ERR_FETCH_UNAUTHENTICATED",
-                                            "Control token required",
-                                            "Provide --control-token when invoking the CLI");
-                    respond_error(std::move(error), "auth_missing", true, false);
-                    return;
-                }
-                if (!constant_time_equal(*control_token, token_it->second)) {
-                    auto error = make_error("ERR_FETCH_UNAUTHENTICATED",
-                                            "Invalid control token",
-                                            "Verify the shared secret configured on the daemon");
-                    respond_error(std::move(error), "auth_invalid", true, false);
-                    return;
-                }
                 rate_identity = hashed_token_identity(token_it->second);
             } else if (token_it != fields.end()) {
                 rate_identity = hashed_token_identity(token_it->second);
